@@ -38,6 +38,7 @@ type mergeCase struct {
 	Mode     string         `json:"mode"`
 	Order    []string       `json:"order"`
 	Single   bool           `json:"single"`
+	Empties  []string       `json:"empties"`
 	Expected struct {
 		Fails bool `json:"fails"`
 		Main  []struct {
@@ -169,6 +170,9 @@ func mergeReplay(args []string) error {
 			splits[v.Split] = true
 		}
 		r.Nontrivial = len(splits) > 1
+		for _, sid := range c.Empties {
+			bySplit[sid] = nil
+		}
 		for sid, files := range bySplit {
 			if err := e.uploadSplit(stores, repo, did, sid, files); err != nil {
 				bad("split/upload-error", "ok", err.Error(), sid)
@@ -314,6 +318,9 @@ func mergeReplay(args []string) error {
 		// a single-split diamond is a plain upload of the same files
 		if c.Single {
 			for sid, files := range bySplit {
+				if files == nil {
+					continue
+				}
 				_ = sid
 				src, _ := e.writeTree(files, 0)
 				pb := e.newBundle(ostores, repo, "", src)
